@@ -235,6 +235,9 @@ def run(ctx):
     if not (drv and exe):
         return
     lines, opss, n_corpus, n_exh = gen_lines(ctx)
+    token = V.detect_token(exe)   # the model follows the tree as it is (GroupBy with or without the repair)
+    if token != "grp":
+        lines = [l.replace(" grp ", " %s " % token) for l in lines]
     impl, faults = core.run_lines_parallel(exe, lines, jobs=14)
     model, _ = core.run_lines_parallel(drv, lines, jobs=14, env=None)
     for i, kind, err in faults:
